@@ -675,6 +675,7 @@ fn lex(text: &str) -> Vec<Tok> {
     out
 }
 
+const ONE_IDENT: &str = "\u{1}one-ident";
 /// Token-sequence search. `$$` in the pattern is a wildcard: a (lazily) minimal, bracket-balanced run of
 /// tokens, captured as $1, $2, .. for the replacement text.
 fn find_matches(text: &str, pat: &str) -> Vec<(Range<usize>, Vec<Range<usize>>)> {
@@ -687,6 +688,10 @@ fn find_matches(text: &str, pat: &str) -> Vec<(Range<usize>, Vec<Range<usize>>)>
         let t = &pat[pp0[i].s..pp0[i].e];
         if t == "$" && i + 1 < pp0.len() && &pat[pp0[i + 1].s..pp0[i + 1].e] == "$" && pp0[i + 1].s == pp0[i].e {
             pp.push(None);
+            i += 2;
+        } else if t == "$" && i + 1 < pp0.len() && &pat[pp0[i + 1].s..pp0[i + 1].e] == "_" && pp0[i + 1].s == pp0[i].e {
+            // `$_`: exactly one identifier token (captured like `$$`) - anchors that must not depend on a local's name
+            pp.push(Some(ONE_IDENT));
             i += 2;
         } else {
             pp.push(Some(t));
@@ -702,6 +707,18 @@ fn find_matches(text: &str, pat: &str) -> Vec<(Range<usize>, Vec<Range<usize>>)>
             return Some(ti);
         }
         match pp[pi] {
+            Some(p) if p == ONE_IDENT => {
+                if ti < tt.len() && text[tt[ti].s..tt[ti].e].chars().next().map_or(false, |c| c.is_alphabetic() || c == '_') {
+                    caps.push(tt[ti].s..tt[ti].e);
+                    let r = go(text, tt, pp, ti + 1, pi + 1, caps);
+                    if r.is_none() {
+                        caps.pop();
+                    }
+                    r
+                } else {
+                    None
+                }
+            }
             Some(p) => {
                 if ti < tt.len() && &text[tt[ti].s..tt[ti].e] == p {
                     go(text, tt, pp, ti + 1, pi + 1, caps)
@@ -1038,6 +1055,43 @@ fn handle_fn(
     features: &[String],
 ) -> Result<Value, String> {
     let _ = attrs;
+    // R1c: parameters that were only renamed in the working tree are mapped back to their contract-side names BEFORE anything else
+    // (identifier tokens of signature and body, never a token after `.`), and the function is then handled as if it had been written so
+    let renames: Vec<(String, String)> = edits_req
+        .iter()
+        .filter(|e| e["op"].as_str() == Some("rename_ident"))
+        .filter_map(|e| Some((e["from"].as_str()?.to_string(), e["to"].as_str()?.to_string())))
+        .collect();
+    if !renames.is_empty() {
+        let whole = br(sig).start..br(block).end;
+        let text = &src[whole.clone()];
+        let toks = lex(text);
+        let is_var = |i: usize| i == 0 || &text[toks[i - 1].s..toks[i - 1].e] != ".";
+        let mut out = String::new();
+        let mut pos = 0;
+        for (i, t) in toks.iter().enumerate() {
+            let w = &text[t.s..t.e];
+            if !is_var(i) {
+                continue;
+            }
+            if renames.iter().any(|(_, to)| to == w) {
+                return Err(format!("parameter renamed to `{}`... but the contract-side name `{}` is still used in the function (would capture)", w, w));
+            }
+            if let Some((_, to)) = renames.iter().find(|(from, _)| from == w) {
+                out.push_str(&text[pos..t.s]);
+                out.push_str(to);
+                pos = t.e;
+            }
+        }
+        out.push_str(&text[pos..]);
+        let f: syn::ImplItemFn = syn::parse_str(&out).map_err(|e| format!("re-parse after parameter rename: {}", e))?;
+        let rest: Vec<Value> = edits_req.iter().filter(|e| e["op"].as_str() != Some("rename_ident")).cloned().collect();
+        let mut v = handle_fn(&out, &f.attrs, &f.sig, &f.block, &rest, features)?;
+        if let Some(l) = v.get_mut("log").and_then(|l| l.as_array_mut()) {
+            l.insert(0, json!(format!("R1c:renamed parameter(s) mapped back to the contract-side names: {}", renames.iter().map(|(a, b)| format!("{} -> {}", a, b)).collect::<Vec<_>>().join(", "))));
+        }
+        return Ok(v);
+    }
     let mut log: Vec<String> = vec![];
     let mut edits = Edits::new();
     let brange = br(block);
@@ -1091,7 +1145,8 @@ fn handle_fn(
                 if let syn::Pat::Ident(pi) = &*t.pat {
                     if let (Some(m), None) = (&pi.mutability, &pi.by_ref) {
                         sig_edits.replace(br(m).start..br(&pi.ident).start, "");
-                        head.push_str(&format!(" let mut {0} = {0};", pi.ident));
+                        let nm = pi.ident.to_string();
+                        head.push_str(&format!(" let mut {0} = {0};", nm));
                         log.push(format!("R1:mut {}", pi.ident));
                     }
                 }
@@ -1148,6 +1203,12 @@ fn handle_fn(
                 let spec = e["spec"].as_str().unwrap_or("");
                 let pat_t = &src[pat];
                 let expr_t = &src[expr];
+                // `for x in v.iter()` and `for x in &v` are the same loop: the index form needs the collection, not its iterator
+                let expr_norm = match expr_t.trim().strip_suffix(".iter()") {
+                    Some(base) if mode == "ref" => format!("&({})", base.trim()),
+                    _ => expr_t.to_string(),
+                };
+                let expr_t: &str = &expr_norm;
                 let (seq_expr, bind) = match mode {
                     "ref" => (expr_t.to_string(), format!("let {} = &__s{}[__i{}];", pat_t, n, n)),
                     "val" => (expr_t.to_string(), format!("let {} = __s{}[__i{}];", pat_t, n, n)),
